@@ -270,6 +270,34 @@ breaking('RS1-seed-C05-r4m3', {'C05': 'RS1'}, patch='/verif/selftest/patches/see
 breaking('F9-seed-C06-r4m1', {'C06': 'F9', 'C16': 'F9'}, patch='/verif/selftest/patches/seed_C06_r4m1.diff')
 breaking('CC1-seed-C06-r4m2', {'C06': 'CC1'}, patch='/verif/selftest/patches/seed_C06_r4m2.diff')
 breaking('I2-seed-C06-r4m3', {'C06': 'I2'}, patch='/verif/selftest/patches/seed_C06_r4m3.diff')
+breaking('AL4-seed-C15-r4m1', {'C15': 'AL4'}, patch='/verif/selftest/patches/seed_C15_r4m1.diff')
+breaking('AG6-seed-C15-r4m2', {'C15': 'AG6'}, patch='/verif/selftest/patches/seed_C15_r4m2.diff')
+breaking('MC3-seed-C15-r4m3', {'C15': 'MC3'}, patch='/verif/selftest/patches/seed_C15_r4m3.diff')
+breaking('TR1-seed-C11-r4m1', {'C11': 'TR1'}, patch='/verif/selftest/patches/seed_C11_r4m1.diff')
+breaking('D7-seed-C11-r4m2', {'C11': 'D7'}, patch='/verif/selftest/patches/seed_C11_r4m2.diff')
+breaking('MC3-seed-C11-r4m3', {'C11': 'MC3', 'C03': 'MC3'}, patch='/verif/selftest/patches/seed_C11_r4m3.diff')
+breaking('DT9-seed-C12-r4m1', {'C12': 'DT9', 'C16': 'DT9'}, patch='/verif/selftest/patches/seed_C12_r4m1.diff')
+breaking('CH1-seed-C12-r4m2', {'C12': 'CH1'}, patch='/verif/selftest/patches/seed_C12_r4m2.diff')
+breaking('LN1-seed-C12-r4m3', {'C12': 'LN1'}, patch='/verif/selftest/patches/seed_C12_r4m3.diff')
+breaking('ZS1-seed-C13-r4m1', {'C13': 'ZS1'}, patch='/verif/selftest/patches/seed_C13_r4m1.diff')
+breaking('V4-seed-C13-r4m2', {'C13': 'V4'}, patch='/verif/selftest/patches/seed_C13_r4m2.diff')
+breaking('ZS1-seed-C13-r4m3b', {'C13': 'ZS1'}, patch='/verif/selftest/patches/seed_C13_r4m3.diff')
+breaking('DT8-seed-C14-r4m2', {'C14': 'DT8'}, patch='/verif/selftest/patches/seed_C14_r4m2.diff')
+breaking('OV1-seed-C14-r4m3', {'C14': 'OV1'}, patch='/verif/selftest/patches/seed_C14_r4m3.diff')
+breaking('O1-seed-C16-r4m1', {'C16': 'O1'}, patch='/verif/selftest/patches/seed_C16_r4m1.diff')
+breaking('AX2-seed-C16-r4m2', {'C16': 'AX2'}, patch='/verif/selftest/patches/seed_C16_r4m2.diff')
+breaking('MC3-seed-C16-r4m3', {'C16': 'MC3'}, patch='/verif/selftest/patches/seed_C16_r4m3.diff')
+breaking('MR2-seed-C17-r4m1', {'C17': 'MR2'}, patch='/verif/selftest/patches/seed_C17_r4m1.diff')
+breaking('TR1-seed-C17-r4m2', {'C17': 'TR1'}, patch='/verif/selftest/patches/seed_C17_r4m2.diff')
+breaking('NR1-seed-C17-r4m3', {'C17': 'NR1'}, patch='/verif/selftest/patches/seed_C17_r4m3.diff')
+breaking('F7-seed-C18-r4m1', {'C18': 'F7', 'C12': 'F7'}, patch='/verif/selftest/patches/seed_C18_r4m1.diff')
+breaking('MC3-seed-C18-r4m3', {'C18': 'MC3'}, patch='/verif/selftest/patches/seed_C18_r4m3.diff')
+breaking('AL5-seed-C19-r4m1', {'C19': 'AL5'}, patch='/verif/selftest/patches/seed_C19_r4m1.diff')
+breaking('NQ1-seed-C19-r4m2', {'C19': 'NQ1'}, patch='/verif/selftest/patches/seed_C19_r4m2.diff')
+breaking('CE1-seed-C19-r4m3', {'C19': 'CE1'}, patch='/verif/selftest/patches/seed_C19_r4m3.diff')
+breaking('FS1-seed-C20-r4m1', {'C20': 'FS1'}, patch='/verif/selftest/patches/seed_C20_r4m1.diff')
+breaking('AR4-seed-C20-r4m2', {'C20': 'AR4'}, patch='/verif/selftest/patches/seed_C20_r4m2.diff')
+breaking('T4-seed-C20-r4m3', {'C20': 'T4'}, patch='/verif/selftest/patches/seed_C20_r4m3.diff')
 breaking('refix-get_gme_2qubit', {'C13': 'F2', 'C05': 'F2'}, patch_reverse='fix_78cd862.diff')
 
 # ---- behaviour-preserving edits for the second half of the round-3 rules
@@ -295,6 +323,9 @@ preserving('mc3-memo-of-int', ['C16'], [(M + 'gellmann.py', "def gellmann_matrix
 breaking('PU1-inplace-normalise-input-random', {'C10': 'PU1'}, edit=[(M + 'random/_internal.py', "def rand_channel_matrix_space(dim_in, num_term, seed=None):\n    np_rng = get_numpy_rng(seed)", "def _normalise_rows(np0):\n    np0 /= np.linalg.norm(np0, axis=-1, keepdims=True)\n    return np0\n\n\ndef rand_channel_matrix_space(dim_in, num_term, seed=None):\n    np_rng = get_numpy_rng(seed)")])
 breaking('PU1-inplace-hermitise-input-utils', {'C12': 'PU1', 'C17': 'PU1', 'C05': 'PU1'}, edit=[(M + 'utils.py', "def partial_trace(rho:np.ndarray, dim:tuple[int], keep_index:set[int]):", "def _hermitise(rho):\n    rho += rho.T.conj()\n    rho /= 2\n    return rho\n\n\ndef partial_trace(rho:np.ndarray, dim:tuple[int], keep_index:set[int]):")])
 preserving('d6-structural-skip-by-name', ['C03'], [(M + 'sim/circuit.py', "        for gate,index in self.gate_index_list:\n            if gate.kind=='unitary':\n                q0 = numqi.sim.state.apply_gate(q0, gate.array, index)", "        for gate,index in self.gate_index_list:\n            if gate.name=='barrier':\n                continue\n            if gate.kind=='unitary':\n                q0 = numqi.sim.state.apply_gate(q0, gate.array, index)")])
+preserving('tr1-is-none-test', ['C17'], [(M + 'utils.py', "    if not isinstance(keep_index, collections.abc.Iterable):\n        keep_index = {int(keep_index)}", "    if keep_index is None:\n        keep_index = set(range(len(dim)))\n    if not isinstance(keep_index, collections.abc.Iterable):\n        keep_index = {int(keep_index)}")])
+preserving('zs1-clamp-not-snap', ['C13'], [(M + 'entangle/eof.py', "    ret = np.maximum(2*EVL[-1]-EVL.sum(), 0)\n    return ret", "    ret = 2*EVL[-1]-EVL.sum()\n    if ret < 0:\n        ret = 0.0\n    return ret")])
+preserving('ln1-conj-of-operator', ['C12'], [(M + 'channel/_internal.py', "    ret = (op @ rho.reshape(-1)).reshape(dim1, dim1)\n    return ret", "    op_dag = op.T.conj()\n    ret = (op_dag.T.conj() @ rho.reshape(-1)).reshape(dim1, dim1)\n    return ret")])
 # ---- textual breaking edits, one per rule family
 breaking('S3-ambient-draw', {'C10': 'S3'}, edit=[(M + 'random/_internal.py', "tmp0 = np_rng.normal(size=(N0,dim))\n    tmp0 = tmp0 / np.linalg.norm", "tmp0 = np.random.normal(size=(N0,dim))\n    tmp0 = tmp0 / np.linalg.norm")])
 breaking('S4-unseeded-receiver', {'C10': 'S4'}, edit=[(M + 'random/_internal.py', "    np_rng = get_numpy_rng(seed)\n    assert dim>=2\n    tmp0 = np.triu(", "    np_rng = get_numpy_rng(seed)\n    assert dim>=2\n    np_rng = np.random.default_rng(dim)\n    tmp0 = np.triu(")])
